@@ -1,173 +1,3 @@
-(* C08 — property theorems.  Nothing but statements, `exact`, Print Assumptions. *)
-From G08 Require Import Tables Cfg Spec Check Proofs V1Proofs SegProofs BoundProofs InvProofs SpecProofs OracleProofs MainProofs Once Timeout Obligations Refuted.
-Open Scope N_scope.
-
-(* v2: a well-formed header followed by ANY payload is accepted, the advertised addresses are returned and the
-   payload is left untouched in the stream (none lost, none of the header leaked). *)
-Theorem T08_exact_handover_v2 : forall g payload, wf_v2 g ->
-  exists h, read_flat src_cfg (v2_bytes g ++ payload) = Ok h payload /\ adv_of h = adv_v2 g.
-Proof. exact (read_v2_wf src_cfg ob_common ob_v2). Qed.
-Print Assumptions T08_exact_handover_v2.
-
-(* v1 TCP4/TCP6: the same for every well-formed line (families, address texts net.ParseIP accepts, ports 0..65535,
-   at most 107 bytes) and every payload *)
-Theorem T08_exact_handover_v1 : forall f payload, wf_v1_tcp f ->
-  exists h, read_flat src_cfg (v1_line f ++ CRLF ++ payload) = Ok h payload /\ adv_of h = adv_v1 f.
-Proof. exact (read_v1_tcp_wf src_cfg ob_common ob_v1). Qed.
-Print Assumptions T08_exact_handover_v1.
-
-(* v1 UNKNOWN: anything up to the first CRLF is skipped, the socket's addresses stay *)
-Theorem T08_exact_handover_v1_unknown : forall rest payload, wf_v1_unknown rest ->
-  exists h, read_flat src_cfg (v1_unknown_line rest ++ CRLF ++ payload) = Ok h payload /\ adv_of h = adv_local.
-Proof. exact (fun rest payload => read_v1_unknown_wf src_cfg rest payload ob_common ob_v1). Qed.
-Print Assumptions T08_exact_handover_v1_unknown.
-
-(* the three together: every well-formed header (Spec.wf_header) followed by any payload *)
-Theorem T08_exact_handover : forall hd a payload, wf_header hd a ->
-  exists h, read_flat src_cfg (hd ++ payload) = Ok h payload /\ adv_of h = a.
-Proof. exact (fun hd a payload Hwf =>
-  match Hwf in wf_header hd0 a0 return exists h, read_flat src_cfg (hd0 ++ payload) = Ok h payload /\ adv_of h = a0 with
-  | WF_v1 f H => eq_ind _ (fun x => exists h, read_flat src_cfg x = Ok h payload /\ adv_of h = adv_v1 f)
-                        (read_v1_tcp_wf src_cfg ob_common ob_v1 f payload H) _ (app_assoc _ _ _)
-  | WF_unknown r H => eq_ind _ (fun x => exists h, read_flat src_cfg x = Ok h payload /\ adv_of h = adv_local)
-                        (read_v1_unknown_wf src_cfg r payload ob_common ob_v1 H) _ (app_assoc _ _ _)
-  | WF_v2 g H => read_v2_wf src_cfg ob_common ob_v2 g payload H
-  end). Qed.
-Print Assumptions T08_exact_handover.
-
-(* conversely: whatever byte string ReadHeader accepts starts with a well-formed header, the returned addresses are
-   the advertised ones, and what is left in the stream is exactly what follows that header; every other input
-   (malformed, truncated, oversized) is an error, i.e. that connection fails *)
-Theorem T08_accept_only_wf : forall bs h rest, is_bytes bs = true ->
-  read_flat src_cfg bs = Ok h rest -> exists hd, bs = hd ++ rest /\ wf_header hd (adv_of h).
-Proof. exact (fun bs h rest => accept_only_wf src_cfg bs h rest ob_common ob_v1 ob_v2 ob_strict). Qed.
-Print Assumptions T08_accept_only_wf.
-
-(* ... also when the bytes arrive in arbitrary TCP segments; hence a connection whose bytes do not begin with a
-   well-formed header fails (Conn.Read returns the header error), whatever the segmentation *)
-Theorem T08_accept_only_wf_segmented : forall cs h rest, is_bytes (concat cs) = true ->
-  read_chunked src_cfg cs = Ok h rest -> exists hd, concat cs = hd ++ concat rest /\ wf_header hd (adv_of h).
-Proof. exact (accept_only_wf_segmented src_cfg T08_accept_only_wf). Qed.
-Print Assumptions T08_accept_only_wf_segmented.
-
-Theorem T08_malformed_fails : forall cs, is_bytes (concat cs) = true ->
-  (forall hd a rest, concat cs = hd ++ rest -> ~ wf_header hd a) -> exists t o, read_chunked src_cfg cs = Err t o.
-Proof. exact (malformed_fails_segmented src_cfg T08_accept_only_wf). Qed.
-Print Assumptions T08_malformed_fails.
-
-(* every way of cutting the byte stream into TCP segments gives the same result (accepted header or error class)
-   and the same remaining bytes as the unsegmented stream — for every input, well formed or not *)
-Theorem T08_segmentation : forall cs,
-  res_rel flat_of (read_flat src_cfg (concat cs)) (read_chunked src_cfg cs).
-Proof. exact (segmentation_irrelevant src_cfg). Qed.
-Print Assumptions T08_segmentation.
-
-(* whatever arrives, at most 16 + 2048 bytes are taken from the stream, at most 107 if it starts with "PROXY " *)
-Theorem T08_bounded_consumption : forall bs,
-  bounded (16 + 2048) bs (read_flat src_cfg bs) /\
-  (has_prefix bs (b "PROXY ") = true -> bounded 107 bs (read_flat src_cfg bs)).
-Proof. exact (read_bounded src_cfg ob_common ob_v1 ob_v2). Qed.
-Print Assumptions T08_bounded_consumption.
-
-(* THE PROPERTY on the model: a well-formed header followed by any payload, cut into TCP segments in any way and read
-   through Conn: RemoteAddr / LocalAddr are the advertised source / destination (the socket's own for LOCAL and
-   UNKNOWN), and what the application reads next is exactly the payload *)
-Theorem T08_conn_reports_advertised : forall hd a payload cs sock_r sock_l,
-  wf_header hd a -> concat cs = hd ++ payload ->
-  exists h rest, read_chunked src_cfg cs = Ok h rest /\ concat rest = payload /\
-    remote_addr src_cfg (read_chunked src_cfg cs) sock_r = adv_remote a sock_r /\
-    local_addr src_cfg (read_chunked src_cfg cs) sock_l = adv_local_addr a sock_l.
-Proof. exact (conn_reports_advertised src_cfg T08_exact_handover). Qed.
-Print Assumptions T08_conn_reports_advertised.
-
-(* whatever bytes arrive, in whatever segmentation: RemoteAddr and LocalAddr of the accepted connection are never nil *)
-Theorem T08_no_missing_addr : forall (cs : list str) sock,
-  remote_addr src_cfg (read_chunked src_cfg cs) sock <> None /\ local_addr src_cfg (read_chunked src_cfg cs) sock <> None.
-Proof. exact (fun cs sock => conn_addr_not_nil rd_chunks src_cfg cs sock ob_no_nil). Qed.
-Print Assumptions T08_no_missing_addr.
-
-(* LOCAL / UNKNOWN headers report the socket's own addresses ... *)
-Theorem T08_local_uses_socket : forall (cs : list str) sock h rest,
-  read_chunked src_cfg cs = Ok h rest -> h_local h = true ->
-  remote_addr src_cfg (read_chunked src_cfg cs) sock = Some sock /\ local_addr src_cfg (read_chunked src_cfg cs) sock = Some sock.
-Proof. exact (conn_addr_local rd_chunks src_cfg). Qed.
-Print Assumptions T08_local_uses_socket.
-
-(* ... and so do connections whose header could not be read (their Read fails with the header error) *)
-Theorem T08_failed_header_uses_socket : forall (cs : list str) sock t rest,
-  read_chunked src_cfg cs = Err t rest ->
-  remote_addr src_cfg (read_chunked src_cfg cs) sock = Some sock /\ local_addr src_cfg (read_chunked src_cfg cs) sock = Some sock.
-Proof. exact (conn_addr_err rd_chunks src_cfg). Qed.
-Print Assumptions T08_failed_header_uses_socket.
-
-(* once-only shared result: any number of concurrent callers of Read / Write / RemoteAddr / LocalAddr / Header, any
-   interleaving: ReadHeader is executed at most once and every caller that returned saw the outcome of that execution *)
-Theorem T08_once : forall (R : Type) (res : nat -> R) n s,
-  steps R res t_once_recheck t_once_fast (init R n) s ->
-  (reads R s <= 1)%nat /\ forall i r, nth_error (pcs R s) i = Some (Done R r) -> r = Some (res 0%nat).
-Proof. exact (fun R res => once_only R res t_once_recheck t_once_fast ob_once). Qed.
-Print Assumptions T08_once.
-
-Theorem T08_once_refuted_without_recheck : forall (R : Type) (res : nat -> R) o_fast,
-  exists s, steps R res false o_fast (init R 2) s /\ reads R s = 2%nat.
-Proof. exact twice_without_recheck. Qed.
-
-(* header timeout, arithmetic only (partial: that the runtime's timer fires on time is tested, not proved): with a
-   positive ReadHeaderTimeout the header read is abandoned - connection closed, error recorded - no later than
-   t0 + timeout and no later than the header itself would have completed; a header completed earlier is not cut off *)
-Theorem T08_header_deadline_partial : forall timeout cd t0 t_read, (0 < timeout)%Z ->
-  match header_outcome timeout cd t0 t_read with
-  | ReadDone t => t_read = Some t /\ (t < t0 + timeout)%Z
-  | TimedOut d => (d <= t0 + timeout)%Z /\ (forall t, t_read = Some t -> (d <= t)%Z)
-  | Blocked => False
-  end.
-Proof. exact header_timeout_bound. Qed.
-Print Assumptions T08_header_deadline_partial.
-
-(* the run-time oracle is the theorems' predicate: verdict 0 on an observation of the implementation means ... *)
-Theorem T08_oracle_sound : forall c, is_bytes (r_in c) = true -> rcase_verdict c = 0 ->
-  (r_ok c = true ->
-     exists hd rest a, r_in c = hd ++ rest /\ wf_header hd a /\ adv_matches a (r_hdr c) = true /\
-                       N.of_nat (length hd) = r_consumed c /\ has_addrs (r_hdr c) = true) /\
-  (r_ok c = false -> forall hd a rest, r_in c = hd ++ rest -> ~ wf_header hd a).
-Proof. exact rcase_verdict_sound. Qed.
-Print Assumptions T08_oracle_sound.
-
-Theorem T08_oracle_sound_conn : forall c, is_bytes (cc_in c) = true -> ccase_verdict c = 0 ->
-  cc_remote c <> None /\ cc_local c <> None /\
-  ((exists hd a rest, cc_in c = hd ++ rest /\ wf_header hd a /\ cc_read_ok c = true /\ cc_payload c = rest /\
-                      cc_remote c = adv_remote a (cc_sock_remote c) /\ cc_local c = adv_local_addr a (cc_sock_local c))
-   \/ ((forall hd a rest, cc_in c = hd ++ rest -> ~ wf_header hd a) /\ cc_read_ok c = false /\ cc_payload c = [])).
-Proof. exact ccase_verdict_sound. Qed.
-Print Assumptions T08_oracle_sound_conn.
-
-(* ... and the recogniser finds every well-formed header, and only those *)
-Theorem T08_oracle_complete : forall hd a p, wf_header hd a -> spec_find (hd ++ p) = Some (a, length hd).
-Proof. exact spec_complete. Qed.
-Theorem T08_oracle_recogniser_sound : forall bs a n, is_bytes bs = true -> spec_find bs = Some (a, n) ->
-  exists hd rest, bs = hd ++ rest /\ length hd = n /\ wf_header hd a.
-Proof. exact spec_sound. Qed.
-Print Assumptions T08_oracle_recogniser_sound.
-
-(* What the machinery found on the pinned tree (model of snapshot 5024b31). *)
-Theorem T08_no_missing_addr_refuted_on_pinned_tree :
-  exists bs, length bs = 18%nat /\ remote_addr pinned_cfg (read_flat pinned_cfg bs) sock0 = None.
-Proof. exact no_missing_addr_refuted_pinned. Qed.
-Theorem T08_accept_only_wf_refuted_on_pinned_tree :
-  forall bs, In bs [ b "PROXY TCP4 1.1.1.1 2.2.2.2 -1 70000" ++ CRLF; b "PROXY TCP4 1.1.1.1 2.2.2.2 1 2 junk" ++ CRLF;
-                     b "PROXY TCP4 ::1 ::2 10000 20000" ++ CRLF; b "PROXY TCP4X1.1.1.1 2.2.2.2 1 2" ++ CRLF ] ->
-  spec_find bs = None /\ exists h, read_flat pinned_cfg bs = Ok h [].
-Proof. exact accept_only_wf_refuted_pinned. Qed.
-Theorem T08_exact_handover_refuted_on_pinned_tree :
-  exists f payload, wf_v1_tcp f /\
-    match read_flat pinned_cfg (v1_line f ++ CRLF ++ payload) with Ok _ _ => False | Err _ _ => True end.
-Proof. exact exact_handover_refuted_pinned. Qed.
-
-(* Non-vacuity: concrete well-formed headers of each kind meet the hypotheses, and the model run on them. *)
-Example T08_example :
-  wf_v1_tcp {| f_is6 := true; f_src := b "::"; f_dst := b "::1"; f_sport := b "0"; f_dport := b "65535" |} /\
-  wf_v1_unknown (b " anything") /\
-  wf_v2 {| g_vc := 33; g_fam := 18; g_body := [10;0;0;1; 10;0;0;2; 1;187; 0;80; 3;0;1;9] |} /\
-  read_flat src_cfg (b "PROXY TCP6 :: ::1 0 65535" ++ CRLF ++ b "GET") =
-    Ok (mk_v1 (tcp (zeros 16) 0%Z) (tcp (zeros 15 ++ [1]) 65535%Z)) (b "GET").
-Proof. exact example_wf. Qed.
+(* C08 — all property theorems (parts are checked one by one by bin/check, so that a failing table obligation
+   un-discharges only the theorems that depend on it; this file is what coqchk re-checks). *)
+From G08 Require Export C08_handover C08_converse C08_addr C08_once C08_free.
